@@ -9,6 +9,7 @@ from concurrent.futures import wait
 import logging
 from packaging import version
 import time
+import traceback
 import typing
 import warnings
 from enum import IntEnum
@@ -856,6 +857,13 @@ class Saver:
         self.closed = True
 
         exc_info = strax.formatted_exception()
+        if not exc_info:
+            # A job we waited for can have failed without us being in its exception
+            # context, e.g. the computation-and-saving job of a saver inlined in another process
+            for f in wait_for:
+                if f.done() and not f.cancelled() and f.exception() is not None:
+                    exc_info = "".join(traceback.format_exception(f.exception()))
+                    break
         if exc_info:
             self.md["exception"] = exc_info
 
